@@ -707,7 +707,10 @@ func (v *Voter) removeMarkedBlock(blockHash common.Hash) {
 	v.lock.Lock()
 	defer v.lock.Unlock()
 
-	if CompareCommonHash(v.nextMarked.BlockHash, blockHash) == 0 {
+	// nextMarked is only set while the step is before precommit; a block committed without it
+	// (quorum seen in the precommit/certificate step) leaves it nil, and this runs on the Server's
+	// event loop when the inserter refuses the block: a nil dereference here kills the node.
+	if v.nextMarked != nil && CompareCommonHash(v.nextMarked.BlockHash, blockHash) == 0 {
 		v.nextMarked = nil
 		v.nextVoted = nil
 	}
